@@ -188,6 +188,9 @@ func (w *world) seq(out *c.Out, seq int, r *c.Rng) {
 			for w.parties[b].module == "" {
 				b = r.Intn(len(w.parties))
 			}
+			if r.Chance(10) {
+				a = 0 // the reserve address as the sending account
+			}
 		case "mint", "burn":
 			for w.parties[a].module == "" {
 				a = r.Intn(len(w.parties))
@@ -206,9 +209,18 @@ func (w *world) seq(out *c.Out, seq int, r *c.Rng) {
 		if r.Chance(15) && kind != "burn" {
 			extra = r.Range(1, 5)
 		}
-		if kind == "send" && (a == 0 || b == 0) && r.Chance(60) {
-			// the reserve as a direct party of SendCoins is generated rarely
+		if kind == "send" && (a == 0 || b == 0) && r.Chance(40) {
+			// the reserve as a direct party of SendCoins is generated less often
 			a, b = 1, 2
+		}
+		if (kind == "send" || kind == "a2m") && (a == 0 || b == 0) && r.Chance(50) {
+			// the reserve as a party of a transfer WITHOUT akava (ukava and/or another denom only):
+			// the guard must not depend on the extended amount being present
+			x = bi(0)
+			u = bi(r.Range(1, 3))
+			if b == 0 && pre.bal[a].Sign() > 0 {
+				u = bi(1)
+			}
 		}
 		other := otherDenoms(bk, ctx, w)
 		if kind == "burn" || other[a] < extra { // the model does not track usdx: only affordable extras
